@@ -279,6 +279,17 @@ class C13(Check):
                 cfg = qd.SimConfig("clifford", split=tape.chance(1, 3, "split?"))
                 n_leaves = qd.check_simulate(P, circuit, cfg, ctx, max_leaves=300, qubit_order=list(qs),
                                              phase_exact=True)
+                # the result's final state is the result's: what a caller does to the object it was handed
+                # must not change what the result reports afterwards
+                res = cirq.CliffordSimulator(seed=sp.ScriptedPRNG([], chooser=lambda k: 0)).simulate(
+                    circuit, qubit_order=list(qs))
+                fs = res.final_state
+                v0 = np.array(fs.state_vector(), dtype=np.complex128)
+                fs.apply_unitary([cirq.X, cirq.H, cirq.S][tape.draw(3, "mutate-with")].on(qs[tape.draw(len(qs), "mutate-q")]))
+                v1 = np.array(res.final_state.state_vector(), dtype=np.complex128)
+                if not np.allclose(v0, v1, atol=1e-7):
+                    raise Violation(f"{P}-SAMPLE-MUTATES", f"[simulate] result.final_state changed after the state "
+                                                           f"object obtained from it was modified by its holder\n{circuit}")
             else:
                 cfg = qd.SimConfig("clifford" if sut == "run" else "stab-sampler", split=tape.chance(1, 3, "split?"))
                 reps = 1 + tape.draw(2 if bits <= 4 else 1, "reps")
@@ -409,25 +420,59 @@ class C13(Check):
             destabs = [d for d in state_obj.destabilizers()]
             return meas, None, (stabs, destabs)
 
+        # Things a user may do to a state between operations that must leave it as it is: draw a sample from it
+        # (any number of repetitions, one included), and try an operation the state cannot take (the attempt is
+        # refused with TypeError and must not have applied part of the operation's decomposition).
+        n_units = len(list(circuit)) if sut == "ch-steps" else len(ops)
+        poke_at = tape.draw(max(1, n_units), "poke-at") if (not deep and tape.chance(1, 2, "poke?")) else None
+        poke_kind = tape.draw(2, "poke-kind") if sut != "ch-steps" else 0
+        poke_reps = 1 + tape.draw(2, "poke-reps")
+        poke_axes = self._distinct(tape, n, 1 + tape.draw(min(2, n), "poke-width"))
+        rejected = None
+        if n >= 2:
+            a, b = [qs[i] for i in self._two(tape, n)]
+            rejected = [cirq.ISWAP(a, b) ** 0.5, cirq.SWAP(a, b) ** 0.5, cirq.XX(a, b) ** 0.25,
+                        cirq.FSimGate(0.3, 0.2).on(a, b)][tape.draw(4, "rejected-gate")]
+        if poke_at is not None:
+            ctx.probe("poke:" + ("sample" if poke_kind == 0 or rejected is None else "rejected-gate"))
+
+        def poke(i, rep, st):
+            if poke_at != i:
+                return
+            quiet = sp.ScriptedPRNG([], chooser=lambda k: 0)      # its draws are not part of the case
+            if poke_kind == 0 or rejected is None:
+                rep.sample(list(poke_axes), repetitions=poke_reps, seed=quiet)
+            else:
+                try:
+                    cirq.act_on(rejected, st)
+                except TypeError:
+                    return
+                raise Violation(f"{P}-SUT-EXCEPTION", f"[{sut}] act_on({rejected}) was accepted by a stabilizer state")
+
         def leaf(prng):
             snaps = []
             if sut == "ch-steps":
                 sim = cirq.CliffordSimulator(seed=prng)
                 meas = {}
-                for step in sim.simulate_moment_steps(circuit, qubit_order=list(qs)):
+                for i, step in enumerate(sim.simulate_moment_steps(circuit, qubit_order=list(qs))):
                     for k, v in step.measurements.items():
                         meas[k] = tuple(int(x) for x in v)
+                    if poke_at == i:
+                        step.sample([qs[x] for x in poke_axes], repetitions=poke_reps,
+                                    seed=sp.ScriptedPRNG([], chooser=lambda k: 0))
                     snaps.append((dict(meas), np.asarray(step.state.state_vector(), dtype=np.complex128), None))
                 return snaps
             if sut == "ch-act_on":
                 st = cirq.StabilizerChFormSimulationState(qubits=list(qs), prng=prng, initial_state=0)
-                for op in ops:
+                for i, op in enumerate(ops):
                     cirq.act_on(op, st)
+                    poke(i, st.state, st)
                     snaps.append(snapshot(st.state, st, "ch"))
                 return snaps
             st = cirq.CliffordTableauSimulationState(tableau=cirq.CliffordTableau(num_qubits=n), qubits=list(qs), prng=prng)
-            for op in ops:
+            for i, op in enumerate(ops):
                 cirq.act_on(op, st)
+                poke(i, st.tableau, st)
                 snaps.append(snapshot(st.tableau, st, "tab"))
             return snaps
 
